@@ -29,9 +29,11 @@ RULE = ("Krylov: Hermitian A = Q diag(w) Q^H, real/complex, n in 1..150, spectra
         ">= 2 symmetry sectors with entries on both sides or the Krylov run needed >= 2 Lanczos vectors; distinct by "
         "(case index, sub-case index) of the deterministic generator.")
 ASSUMPTIONS = [
-    "Krylov tolerance: ||r - exp(dt A)v|| <= 1e-4 ||exp(dt A)v|| + 1e-7 (||v|| + sqrt(n)), i.e. ten times the "
-    "kernel's own successive-iterate allclose(rtol=1e-5, atol=1e-8 per element); calibrated: worst observed on the "
-    "unchanged tree is 4e-4 of this bound",
+    "Krylov tolerance: ||r - exp(dt A)v|| <= 1e-4 ||exp(dt A)v|| + 1e-7 (||v|| + sqrt(n)) + 1e4 eps ||exp(dt A)|| ||v||, "
+    "i.e. ten times the kernel's own successive-iterate allclose(rtol=1e-5, atol=1e-8 per element) plus the "
+    "amplified input rounding (relevant only for real dt and a start vector without weight on the growing part of "
+    "the spectrum, where the dense reference itself is rounding noise); calibrated: worst observed ratio on the "
+    "promised class is < 1e-2 of this bound",
     "generic complex dt is generated although the statement only names real and imaginary dt; its violations carry "
     "the suffix |complex-dt",
     "a callable that returns its argument object itself (aliasing) is not generated; the map is always given as a "
@@ -121,6 +123,7 @@ def run_case(ctx):
     ctx.evaluations = 0
     monitors.drain(_Sink())          # nothing recorded before this case may leak into it
     kc.drain_observations()
+    kc.WORST.clear()
     st = kc.tracer_status()
     if not st["installed"] or st["missing"]:
         ctx.note_inconclusive(f"krylov exit-branch tracer incomplete: {st['missing']}")
@@ -133,6 +136,9 @@ def run_case(ctx):
         for o in obs:
             ctx.count("observation:" + o["kind"])
         monitors.drain(ctx)
+        for name, val in kc.WORST.items():
+            ctx.metric_max(name, val)
+        kc.WORST.clear()
 
 
 class _Sink:
@@ -337,8 +343,9 @@ def _krylov_case(ctx):
             ctx.note_inconclusive("krylov contract did not evaluate its postcondition on a direct call")
         ctx.count("oracle")
         # independent comparison with the generated matrix itself (not with the materialised callable)
-        ref = kc.dense_expm_apply(a, complex(dt) if np.iscomplex(dt) else float(np.real(dt)), v0)
-        tol = kc.krylov_tolerance(ref, v0)
+        ref, growth = kc.dense_expm_apply(a, complex(dt) if np.iscomplex(dt) else float(np.real(dt)), v0,
+                                          with_growth=True)
+        tol = kc.krylov_tolerance(ref, v0, growth)
         r = np.asarray(r)
         ctx.count("krylov_independent_checks")
         ctx.count("oracle")
